@@ -25,8 +25,8 @@ import subprocess
 import vlib
 
 SIZES = dict(
-    quick=dict(procs=4, traces=4, ops=9, race_traces=1, race_ops=40, hammer='3s'),
-    thorough=dict(procs=8, traces=50, ops=9, race_traces=4, race_ops=300, hammer='10s'),
+    quick=dict(procs=4, traces=4, ops=9, race_traces=5, race_ops=12, hammer='3s'),
+    thorough=dict(procs=8, traces=50, ops=9, race_traces=24, race_ops=50, hammer='10s'),
 )
 
 
@@ -211,6 +211,22 @@ def race_reports(text):
     return out
 
 
+def note_races(ctx, stats, seed, err):
+    """every pair of racing functions reported by the race detector is a divergence (known only if the pair is a listed one)"""
+    reps = race_reports(err)
+    stats['race_reports'] = len(reps)
+    seen = {}
+    for key, text in reps:
+        seen.setdefault(key, []).append(text)
+    stats['race_pairs'] = {k: len(v) for k, v in seen.items()}
+    for key, texts in seen.items():
+        pats = [p for p, keys in RACE_PATTERNS.items() if key in keys]
+        ctx.traces_validated += 1
+        ctx.divergences.append({'case': {'mode': 'race', 'seed': seed, 'pair': key},
+                                'result': {'step': -1, 'patterns': pats,
+                                           'msg': f'DATA RACE between {key} ({len(texts)} reports): ' + texts[0][:2500]}})
+
+
 # known data races: pattern -> pairs of racing functions (innermost influxdb frames of the two accesses; names, not line numbers)
 RACE_PATTERNS = {
     # F16: indirectIndex.DeleteRange appended to and sorted, in place, the slice that TombstoneRange hands to readers
@@ -281,7 +297,14 @@ def run(ctx):
                                         'result': {'step': -1, 'patterns': [], 'msg': 'the workload made no progress for the watchdog period, '
                                                    'twice with the same seed; goroutine dump: ' + dump[-6000:]}})
                 continue
-            raise vlib.Inconclusive(f'recorder {tag} stalled once (seed {seed}) and did not stall when run again: not reproducible')
+            # not reproducible: inconclusive (exit 2) -- unless something else of this run is a violation, which is reported first
+            ctx.infra.append(f'recorder {tag} stalled once (seed {seed}) and did not stall when run again: not reproducible; '
+                             'goroutines of the stalled run: ' + err[:3000])
+            if i < 0:
+                note_races(ctx, stats, seed, err)
+            elif os.path.exists(out):
+                files.append((tag, out))
+            continue
         if rc != 0:
             kind = 'panic' if ('panic:' in err or 'fatal error:' in err) else 'recorder failure'
             at = err.find('panic:') if 'panic:' in err else max(0, len(err) - 6000)
@@ -298,6 +321,8 @@ def run(ctx):
                                     'result': {'step': -1, 'patterns': pats, 'msg': f'{kind} in the concurrent workload (seed {seed}, exit {rc}): '
                                                + head}})
             stats['recorder_crashes'] = stats.get('recorder_crashes', 0) + 1
+            if i < 0:
+                note_races(ctx, stats, seed, err)     # what the race detector reported before the crash
             if i >= 0 and os.path.exists(out):
                 files.append((tag, out))     # the traces completed before the crash are still validated
             continue
@@ -305,18 +330,7 @@ def run(ctx):
             files.append((tag, out))
         else:
             stats['race_monitor_operations'] = sum(1 for ln in open(out) if '"ev":"call"' in ln)
-            reps = race_reports(err)
-            stats['race_reports'] = len(reps)
-            seen = {}
-            for key, text in reps:
-                seen.setdefault(key, []).append(text)
-            stats['race_pairs'] = {k: len(v) for k, v in seen.items()}
-            for key, texts in seen.items():
-                pats = [p for p, keys in RACE_PATTERNS.items() if key in keys]
-                ctx.traces_validated += 1
-                ctx.divergences.append({'case': {'mode': 'race', 'seed': seed, 'pair': key},
-                                        'result': {'step': -1, 'patterns': pats,
-                                                   'msg': f'DATA RACE between {key} ({len(texts)} reports): ' + texts[0][:2500]}})
+            note_races(ctx, stats, seed, err)
     # 2. validate every recorded trace
     alltraces = []
     for tag, out in files:
